@@ -279,4 +279,69 @@ theorem setItem_hidden_elem_refuse_own (cls : Cls) (kvs : List (Str × Val)) (q0
     rw [this, tokenize_append_slash, tokenize_render _ hp, tokenize_bracket _ (hidden_cleanIdx e)]
     simp
 
+/-! ### (4) the refusal on the root -/
+
+theorem tokenize_slash_nil : tokenize slash = [] := by decide
+
+/-- item `[1]` of the hidden list around the root: there is no key that holds the root — `__setitem__` leaves the hidden
+list (which `_add` then refuses) -/
+theorem hidden_place_one_root (fuel : Nat) (cls : Cls) (kvs : List (Str × Val)) (tok : Str) (rest : List Str) :
+    hiddenPlace (fuel + 1) (.dict cls kvs) ({ parent := .wrap (.at []), nameIdx := some (bracket (intStr 1)), value := Val.none, found := slash, notFound := some (tok :: rest) } : Res)
+      = .ok ({ parent := .wrap (.at []), nameIdx := some (bracket (intStr 1)), value := Val.none, found := slash, notFound := some (tok :: rest) } : Res) := by
+  have hfind : findD (fuel + 1) (.dict cls kvs) [] false true [] (.at []) true slash
+      = .ok (.dict cls kvs, { parent := .at [], nameIdx := Option.none, value := .dict cls kvs, found := slash,
+                              notFound := Option.none }) := by
+    rw [findD]; simp [valOf_at, getAt]
+  simp only [hiddenPlace, isWrap, hidden_intStr_one, List.isEmpty_cons, Bool.false_or, decide_true, Bool.and_self,
+    if_true, tokenize_slash_nil, hfind, Bool.false_eq_true, if_false]
+  split
+  · rename_i h1 h2; cases h2
+  · rfl
+
+/-- **core**: a text whose tokens are the index token `[e]` (`e` denoting anything but `0` / `-1`) followed by any
+tokens, on a dict root: `SyntaxError`, the tree is the tree before the call -/
+theorem setItem_hidden_root_refuse_toks (cls : Cls) (kvs : List (Str × Val)) (e : IdxSp) (tail : List Str) (v : Val)
+    (xp : Str) (fuel : Nat) (he : e.val ≥ 1 ∨ e.val < -1)
+    (hq : startsWith xp ['?'] = false) (hpc : hasPathChar xp = true)
+    (htok : tokenize xp = bracket e.text :: tail) (hf : fuel ≥ 1) :
+    setItem fuel (.dict cls kvs) xp v = (.dict cls kvs, .error .SyntaxError) := by
+  obtain ⟨f, rfl⟩ : ∃ f, fuel = f + 1 := ⟨fuel - 1, by omega⟩
+  have hP : getAt (.dict cls kvs) [] = some (.dict cls kvs) := by simp [getAt]
+  have hwalk := hidden_find_miss f (.dict cls kvs) true true [] slash _ _ _ (.dict cls kvs) tail hP rfl e.idxTok he
+  have hhid : hiddenPlace (f + 1) (.dict cls kvs) ({ parent := .wrap (.at []), nameIdx := some (bracket (intStr e.val)), value := Val.none, found := slash, notFound := some (bracket e.text :: tail) } : Res)
+      = .ok ({ parent := .wrap (.at []), nameIdx := some (bracket (intStr e.val)), value := Val.none, found := slash, notFound := some (bracket e.text :: tail) } : Res) := by
+    by_cases h1 : e.val = 1
+    · rw [h1]; exact hidden_place_one_root f cls kvs _ tail
+    · exact hidden_place_other (f + 1) _ _ e.val Val.none _ _ tail h1
+  have hadd : add (.dict cls kvs) (.wrap (.at [])) (some (bracket (intStr e.val))) (bracket e.text :: tail)
+      = (.dict cls kvs, .error .SyntaxError) := by
+    rcases hidden_addStep_refused (.dict cls kvs) (.at []) e.val e with h | h
+    · simp [add, h]
+    · simp [valOf, hP] at h
+  unfold setItem
+  simp only [hq, Bool.false_and, Bool.false_eq_true, if_false, hpc, if_true, htok, hwalk, hhid, List.isEmpty_cons,
+    Bool.not_false, hadd]
+
+/-- **`[e]/tail…` and `//[e]/tail…` on a dict root, `e` denoting anything but `0` / `-1`** -/
+theorem setItem_hidden_root_refuse (cls : Cls) (kvs : List (Str × Val)) (e : IdxSp) (tail : List Str) (v : Val)
+    (fuel : Nat) (he : e.val ≥ 1 ∨ e.val < -1) (ht : ∀ x ∈ tail, PlainKey x) (hf : fuel ≥ 1) :
+    setItem fuel (.dict cls kvs) (bracket e.text ++ renderPos (tail.map Seg.key)) v
+      = (.dict cls kvs, .error .SyntaxError) ∧
+    setItem fuel (.dict cls kvs) (slash ++ slash ++ bracket e.text ++ renderPos (tail.map Seg.key)) v
+      = (.dict cls kvs, .error .SyntaxError) := by
+  constructor
+  · apply setItem_hidden_root_refuse_toks cls kvs e tail v _ fuel he _ _ _ hf
+    · simp [bracket, startsWith]
+    · simp [hasPathChar, bracket]
+    · rw [tokenize_then_names _ tail ht, tokenize_bracket _ (hidden_cleanIdx e)]; rfl
+  · apply setItem_hidden_root_refuse_toks cls kvs e tail v _ fuel he _ _ _ hf
+    · simp [slash, startsWith]
+    · simp [hasPathChar, slash]
+    · rw [tokenize_then_names _ tail ht]
+      have : slash ++ slash ++ bracket e.text = ([] : Str) ++ '/' :: (([] : Str) ++ '/' :: bracket e.text) := by
+        simp [slash]
+      rw [this, tokenize_append_slash, tokenize_append_slash, tokenize_bracket _ (hidden_cleanIdx e)]
+      have : tokenize [] = [] := by decide
+      rw [this]; simp
+
 end N0.XPath
